@@ -10,6 +10,7 @@ import (
 	"os"
 	"os/exec"
 	"path/filepath"
+	"runtime/debug"
 	"sort"
 	"strings"
 	"sync"
@@ -244,7 +245,7 @@ func execGuard(prop *Property, p *Plan) (out *Outcome) {
 	defer func() {
 		if r := recover(); r != nil {
 			out = NewOutcome()
-			out.ToolError = fmt.Sprintf("harness panic: %v", r)
+			out.ToolError = fmt.Sprintf("harness panic: %v\n%s", r, debug.Stack())
 		}
 	}()
 	return prop.Exec(p)
